@@ -85,3 +85,47 @@ Print Assumptions C09_replace_arguments_refuted.
 Print Assumptions C09_collapse_line.
 Print Assumptions C09_pairs.
 Print Assumptions C09_minimize.
+
+(* ---- replace-properties-by-globals with the CONCRETE pass (Model/ReplaceProps.v: the two regular expressions
+   as byte scanners, the words dictionary, the grouping by chunk, the substitution): no interface facts are
+   assumed any more.  B = bytes in the parts; a pass offers at most B/2 candidates (every match of
+   (?<=\w)\.(\w+) takes at least two bytes of its own), an accepted candidate with maybe_removed > 0 is
+   shorter, and a chunk size is repeated only after something was removed. *)
+From Lithium Require Import ReplaceProps ReplacePropsProofs.
+
+Theorem C09_replace_properties :
+  forall cfg verdict tc0 file0 fuel,
+    wf tc0 -> 1 <= c_max cfg ->
+    let B := chars tc0 in
+    let c0 := r_chunk (list (bytes * list Z)) (props_start (list (bytes * list Z)) cfg tc0) in
+    let passes := Z.log2 (Z.max 1 c0) + 2 + B in
+    (Z.to_nat ((B / 2 + 2) * passes + 4) <= fuel)%nat ->
+    let r := Driver.run (replace_properties_concrete cfg) verdict fuel tc0 file0 in
+    (forall w, r <> NoFuel w) /\ (forall e w, r <> Aborted (Some e) w) /\
+    n_tests (chron (result_world r)) <= 1 + (B / 2) * passes.
+Proof. exact replace_properties_concrete_bounded. Qed.
+
+(* the bound of the property text, (B+2)^2, whenever there are no more parts than bytes (every splitter
+   produces non-empty parts: C06) *)
+Theorem C09_replace_properties_square :
+  forall cfg verdict tc0 file0 fuel,
+    wf tc0 -> 1 <= c_max cfg ->
+    zlen (tc_parts tc0) <= chars tc0 ->
+    let B := chars tc0 in
+    (Z.to_nat ((B + 2) * (B + 2) + 4) <= fuel)%nat ->
+    let r := Driver.run (replace_properties_concrete cfg) verdict fuel tc0 file0 in
+    (forall w, r <> NoFuel w) /\ (forall e w, r <> Aborted (Some e) w) /\
+    n_tests (chron (result_world r)) <= (B + 2) * (B + 2).
+Proof. exact replace_properties_concrete_square. Qed.
+
+(* the regex scanners meet their specifications *)
+Theorem C09_props_of_count : forall line, 2 * zlen (props_of line) <= zlen line.
+Proof. exact props_of_count. Qed.
+
+Theorem C09_sub_word_shrinks : forall word line, zlen (sub_word word line) <= zlen line.
+Proof. exact sub_word_le. Qed.
+
+Print Assumptions C09_replace_properties.
+Print Assumptions C09_replace_properties_square.
+Print Assumptions C09_props_of_count.
+Print Assumptions C09_sub_word_shrinks.
